@@ -79,6 +79,7 @@ def gen_case(r, tier, small=False):
 def corpus():
     """fixed first entries: the mesh of the known defect (bending, curved 1290-node cell) and two tiny solids"""
     out = []
+    big = []
     path = os.path.join(vlib.REPO, "test/test_triangulation_modules/test_cell_divider/test_cell.vtk")
     if os.path.exists(path):
         vf = U.read_vtk_polyhedron(path)
@@ -86,7 +87,7 @@ def corpus():
             v, f = vf
             f = U.orient_outward(v, f)
             V = abs(U.signed_volume6(v, f)) / 6.0
-            out.append({"v": v, "f": f, "ftype": [i % 2 for i in range(len(f))], "ft": [(1e-3, 2e-18), (5e-4, 1e-18)],
+            big.append({"v": v, "f": f, "ftype": [i % 2 for i in range(len(f))], "ft": [(1e-3, 2e-18), (5e-4, 1e-18)],
                         "p": {"K": 2500.0, "maxP": float("inf"), "aem": 1e-3 * 2.6e-10, "iso": 150.0, "angf": 1e-12, "minvol": 0.0,
                               "growth": V * 0.01, "tvol": V * 1.1, "dt": 1e-2}, "kind": "corpus:test_cell.vtk", "scale": 1e-5, "offk": 0})
     v, f = U.icosahedron()
@@ -101,7 +102,7 @@ def corpus():
     out.append({"v": v, "f": f, "ftype": [0] * len(f), "ft": [(1e-3, 1e-3)],
                 "p": {"K": 10.0, "maxP": float("inf"), "aem": 0.0, "iso": 120.0, "angf": 0.0, "minvol": 0.0, "growth": 0.0,
                       "tvol": 10.0, "dt": 1.0}, "kind": "corpus:octahedron(3,2,1)", "scale": 1.0, "offk": 0})
-    return out
+    return out + big
 
 
 # ---------------------------------------------------------------- oracle
@@ -150,6 +151,21 @@ def oracle_balance(case, ans):
         if t > REL_TOL * ta:
             out.append(("net torque of term '%s' is not zero" % term, {"term": term, "sumT_over_sum_abs_xF": t / ta if ta else None}))
     return out
+
+
+def oracle_sum_of_terms(case, ans):
+    """what apply_internal_forces leaves in the nodes is the sum of the four terms (each run after the same
+    prelude): catches a term applied with stale cell scalars, applied twice, or left out"""
+    Fa = ans["forces"]["all"]
+    parts = [ans["forces"][t] for t in ("pressure", "tension", "bending", "angle")]
+    for i in range(len(Fa)):
+        for k in range(3):
+            s = sum(p[i][k] for p in parts)
+            mag = sum(abs(p[i][k]) for p in parts)
+            if not (abs(Fa[i][k] - s) <= 1e-9 * mag + 1e-300):
+                return [("force left by apply_internal_forces differs from the sum of the four terms",
+                         {"node": i, "axis": k, "all": Fa[i][k], "sum_of_terms": s, "P": ans["P"]})]
+    return []
 
 
 def oracle_dV(case, ans, r, nsamp):
@@ -301,6 +317,7 @@ def build():
 def check_case(case, line, ans, r, nsamp, exe, do_equiv):
     """all oracle checks of one case -> list of (what, detail)"""
     res = list(oracle_balance(case, ans))
+    res += oracle_sum_of_terms(case, ans)
     stats = {"dV": 0, "dA": 0, "equiv": 0}
     o, n = oracle_dV(case, ans, r.fork("dV"), nsamp)
     res += o; stats["dV"] = n
@@ -331,9 +348,9 @@ def run(ctx):
         if not ok:
             V.fail_tie("proof", "leanchecker rejected SimuVerif.Properties.C02", log=log)
     exe, rebuilt = build()
-    n = 90 if tier == "quick" else 600
+    n = 240 if tier == "quick" else 2400
     if not proof["ok"]:
-        n = max(n, 200)       # a proof broke: widen the search for a concrete failing input
+        n = max(n, 400)       # a proof broke: widen the search for a concrete failing input
     r = Rng(seed)
     cases = corpus()
     ncorp = len(cases)
